@@ -159,6 +159,36 @@ def run(ctx):
             i = next(i for i in range(4) if oh[i] != of[i])
             oracle_fail.append({"why": "output after switching one preference differs from a fresh session", "pref": [k, a, b], "call": ([{"op": "set_mathml"}] + getters_reqs())[i], "after_history": oh[i], "fresh": of[i],
                                 "lines": hist_lines, "fresh_lines": fresh_lines})
+    # a preference set AFTER a getter has run, as the very last change before the observed call, against a fresh session that sets it up front:
+    # every kind of setter (string, boolean, number) under every speech engine -- a value cached by the first getter must not survive the change
+    LAST = [("MathRate", "150"), ("MathRate", "60"), ("Pitch", "25"), ("Rate", "260"), ("Volume", "40"), ("CapitalLetters_Pitch", "35"), ("PauseFactor", "300"), ("PauseFactor", "0"),
+            ("CapitalLetters_Beep", "true"), ("CapitalLetters_UseWord", "false"), ("SpeechOverrides_CapitalLetters", "big"), ("Bookmark", "true"), ("Verbosity", "Verbose"), ("Verbosity", "Terse"),
+            ("SpeechStyle", "SimpleSpeak"), ("Impairment", "LowVision"), ("BrailleCode", "UEB"), ("UEB_START_MODE", "Grade1"), ("BrailleNavHighlight", "Off"), ("ClearSpeak_Fractions", "Ordinal"),
+            ("ClearSpeak_Exponents", "Ordinal"), ("Nemeth_SingleCapitalLetters", "Unknown"), ("Language", "es"), ("DecimalSeparator", ",")]
+    LAST_E = ["<math><mi>B</mi><mo>+</mo><mfrac><mn>3</mn><mi>x</mi></mfrac><mo>,</mo><msqrt><mi>C</mi></msqrt><mo>=</mo><msup><mi>y</mi><mn>2</mn></msup></math>",
+              "<math><mrow><mi>sin</mi><mo>⁡</mo><mi>A</mi></mrow><mo>=</mo><mn>1,5</mn><mo>+</mo><mfrac><mn>1</mn><mn>2</mn></mfrac></math>"]
+    n_last = 0
+    for tts in ["SSML", "SAPI5", "None"]:
+        for (k, v) in LAST:
+            for same_expr in (True, False):
+                e0, e = (LAST_E[0], LAST_E[0]) if same_expr else (LAST_E[1], LAST_E[0])
+                base = [{"op": "set_pref", "name": "TTS", "value": tts}]
+                hist_lines = core.prelude(base + [{"op": "set_mathml", "xml": e0}]) + getters_reqs() + [{"op": "set_pref", "name": k, "value": v}] + \
+                    ([] if same_expr else [{"op": "set_mathml", "xml": e}]) + getters_reqs()
+                fresh_lines = core.prelude(base + [{"op": "set_pref", "name": k, "value": v}, {"op": "set_mathml", "xml": e}]) + getters_reqs()
+                rh = im.run([{"op": "session"}] + hist_lines)
+                rf = im.run([{"op": "session"}] + fresh_lines)
+                n_last += 1
+                n_calls += len(hist_lines)
+                if rh[len(hist_lines) - 3 - (0 if same_expr else 1)].get("r") != "ok":
+                    continue            # the preference was rejected: nothing to compare
+                # (with Bookmark=true the speech carries the generated ids, whose prefix is random per session)
+                unid = lambda o: re.sub(r"\bM[a-z0-9]{6,10}-(\d+)", r"ID-\1", o) if isinstance(o, str) else o
+                oh, of = [unid(o) for o in outputs(rh[-3:])], [unid(o) for o in outputs(rf[-3:])]
+                if oh != of:
+                    i = next(i for i in range(3) if oh[i] != of[i])
+                    oracle_fail.append({"why": "a preference set after a getter had run is not (fully) in force: output differs from a fresh session that set it first", "pref": [k, v], "TTS": tts,
+                                        "call": getters_reqs()[i], "after_history": oh[i], "fresh": of[i], "lines": hist_lines, "fresh_lines": fresh_lines})
     # the ORDER in which the same preferences are set does not matter: two fresh sessions set the same assignment in two random orders
     # (the host's way of giving the language -- Language=Auto, then LanguageAuto -- included; LanguageAuto is only accepted after Language=Auto)
     n_perm = 0
@@ -332,7 +362,7 @@ def run(ctx):
         "rule": "random histories (2-11 steps of set_preference over 10 preferences, set_mathml, getters, navigation) followed by a target preference assignment, an expression and the getters in "
                 "random order with one repeated, compared with a fresh session; preference round trips on a fixed expression; file-read prediction along histories (hooks H2 + H6); two sessions "
                 "in two threads interleaved at random vs each alone. non-trivial = histories compared with fresh",
-        "histories": n_hist, "preference_orders_compared": n_perm, "single_preference_switches": n_switch, "pref_roundtrips": n_rt, "calls_with_predicted_file_reads": n_pred, "thread_interleavings": n_thr,
+        "histories": n_hist, "preference_orders_compared": n_perm, "single_preference_switches": n_switch, "last_preference_after_getter": n_last, "pref_roundtrips": n_rt, "calls_with_predicted_file_reads": n_pred, "thread_interleavings": n_thr,
         "thread_local_blocks_in_src": n_tl, "shared_mutable_statics_found": shared,
         "model_vs_impl_disagreements": [{k: v for k, v in d.items() if k != "lines"} for d in disagreements[:8]], "n_disagreements": len(disagreements),
         "impl_vs_oracle_failures": [{k: v for k, v in f.items() if k not in ("lines", "fresh_lines")} for f in oracle_fail[:8]], "n_oracle_failures": len(oracle_fail),
